@@ -411,7 +411,10 @@ def monParse (d : Dicts) (mode : String) (w : Bytes) (obs : List String) : List 
     let declared : Option Int := (fs[1]?).bind (fun f => tagNum f.val)
     let lenOK := declared == some (rawLen mid : Int)
     let hasXml := nums.contains 212
-    let len := if shape && !hasXml && !lenOK && isOk then ["rejects_length"] else []
+    -- an XMLDataLen that starts a length-delimited extraction (a positive number; long digit strings: no claim) changes the
+    -- framing of what follows; one that does not (0, negative, not a number) leaves an ordinary message, length checked as any
+    let extracts := fs.any fun f => tagNum f.tagText == some 212 && (smallNat f.val > 0 || f.val.length > 9)
+    let len := if shape && !extracts && !lenOK && isOk then ["rejects_length"] else []
     -- XMLData: claimed only when every field that READS 212 is spelled `212` (the scanner frames the data field by that text, the parser by the number)
     let wf := shape && lenOK && !tenMember d &&
       (!hasXml || (fs.all (fun f => tagNum f.tagText != some 212 || f.tagText == [50, 49, 50]) &&
